@@ -245,7 +245,7 @@ def materialise(sc, plan, wrap_key=None):
             path = f'{base}/{tag}_doc{i}.yaml'
             files[path] = emit.emit_doc(docs[i])
             where[i] = path
-            calls.append({'path': _src_name(path, d['name_how']), 'raw_yaml': r.choice([None, False])})
+            calls.append({'path': _src_name(path, d['name_how']), 'raw_yaml': r.choice([None, False]), 'as_path': (d['seed'] + len(calls)) % 4 == 0})
             continue
         if kind in ('text_fn', 'stream'):
             i = d['docs'][0]
@@ -258,7 +258,7 @@ def materialise(sc, plan, wrap_key=None):
             files[path] = emit.emit_stream([docs[i] for i in d['docs']])
             for i in d['docs']:
                 where[i] = path
-            calls.append({'path': _src_name(path, d['name_how']), 'raw_yaml': r.choice([None, False])})
+            calls.append({'path': _src_name(path, d['name_how']), 'raw_yaml': r.choice([None, False]), 'as_path': (d['seed'] + len(calls)) % 4 == 0})
             continue
         # include-based deliveries: every block document in its own file
         master = f'{base}/{tag}_master.yaml'
@@ -329,7 +329,7 @@ def materialise(sc, plan, wrap_key=None):
             rec = '!rec [' + ', '.join(emit.scalar_text(nm) for nm in names) + ']'
             body = _UNDER[wrap_key][0].replace('INC', inc).replace('REC', rec) + '\n'
         files[inc_from] = body
-        calls.append({'path': _src_name(master, d['name_how']), 'raw_yaml': r.choice([None, False])})
+        calls.append({'path': _src_name(master, d['name_how']), 'raw_yaml': r.choice([None, False]), 'as_path': (d['seed'] + len(calls)) % 4 == 0})
     return {'files': files, 'calls': calls, 'where': where, 'includes': includes, 'decoys': decoys}
 
 
@@ -430,13 +430,15 @@ def _custom_builder(Builder):
 def _child(files, calls, fs_faults, pre_calls, entry='builder'):
     from awesomeyaml import Builder, Config, errors
     import io
+    import pathlib
     fs = simfs.SimFS(files, cwd=CWD, home=HOME, faults=fs_faults).install()
     recorder.install()
     out = {'pre': []}
 
     def add(b, c):
         if 'path' in c:
-            b.add_source(c['path'], raw_yaml=c.get('raw_yaml'))
+            # the name as a string or as a pathlib.Path (same spelling)
+            b.add_source(pathlib.Path(c['path']) if c.get('as_path') else c['path'], raw_yaml=c.get('raw_yaml'))
         elif 'text' in c:
             b.add_source(c['text'], raw_yaml=True, filename=c.get('filename'))
         else:
